@@ -5,7 +5,8 @@ from .gen import G, hx, mutate, pad_image
 from .props import (Prop, PROPS, kind_of, toks, entry_of, input_of, member_type, ok_str, err_str, ser, view_of,
                     gen_parse_inputs, gen_parse_mixed, gen_builds, ALL_LEAVES, ENTRY_MIN, ENTRY_PT, PT_ENTRY,
                     canon_fir_view, canon_fir_bytes, writes_of, size_n, entry_for_member, has_bad_token, perr_of,
-                    hdr_of_view, classes_of, big_members)
+                    hdr_of_view, classes_of, big_members, sdes_pad_sweep, carry_tiles, rpsi_pb_sweep, fmt_sweep,
+                    systematic_members)
 
 VARIANT_ENTRY = {'App': 'app', 'Bye': 'bye', 'Rr': 'rr', 'Sdes': 'sdes', 'Sr': 'sr', 'Tfb': 'tfb', 'Pfb': 'pfb',
                  'Unknown': 'unknown'}
@@ -128,6 +129,7 @@ class C10(Prop):
             out.append('parse sdes %s' % hx(b))
         for b in sdes_bodies_small(g, n):
             out.append('parse sdes %s' % hx(b))
+        out += sdes_pad_sweep()
         # one chunk of more than 64 KiB (256 items of 255 bytes): chunk-level alignment arithmetic
         big = h.images(['sdes 0 1 7 256 %s' % ' '.join('1 - %s' % ('61' * 255) for _ in range(256))])[0]
         if big is not None:
@@ -248,6 +250,7 @@ class C11(Prop):
             elif c < 0.30:
                 b = b''
             out.append('parse compound %s' % hx(b))
+        out += [l for l in carry_tiles(g) if l.startswith('parse compound')]
         # a tile with the largest length field (0xffff = 262144 bytes) alone and between two packets
         big = bytes([0x80 | g.r.randrange(32), 204, 0xff, 0xff]) + g.rawbytes(8) + bytes(262144 - 12)
         out.append('parse compound %s' % hx(big))
@@ -726,7 +729,7 @@ class C15(Prop):
             out.append('parse %s %s' % (kind, hx(b)))
             if g.chance(0.3):
                 out.append('parse fci:%s %s' % (g.pick(['nack', 'fir', 'sli', 'rpsi', 'pli']), hx(bytes(fci) + g.rawbytes(g.pick([0, 0, 1, 2, 3])))))
-        return out
+        return fmt_sweep(g) + rpsi_pb_sweep() + out
     def relevant(self, line, impl, model):
         e = entry_of(line)
         return kind_of(line) == 'parse' and e is not None and (e in ('tfb', 'pfb') and ok_str(model.get('r')) or
@@ -788,6 +791,16 @@ class C16(Prop):
                 'build - compound 2 compound 1 rr 4 1 0 bye 0 0 -', 'build - compound 2 unk 4 199 0 - bye 0 0 -',
                 'build - compound 2 custom 199 4 0 4 - bye 0 0 -', 'build - compound 2 sdes 4 0 bye 0 0 -',
                 'build - compound 2 app 4 1 0 - - bye 0 0 -', 'build - compound 2 sr 4 1 0 0 0 0 0 bye 0 0 -']
+        # a rule checked against the wrong operand or hidden by a later rounding: overrun vs string length, unaligned
+        # padding together with a reason / data / items
+        for ln in (2, 3, 4, 32, 40):
+            for ov in (8, 9, 15, 16, 17, 255):
+                out.append('build - fb p 0 1 2 rpsi 0 %s %d' % ('5a' * ln, ov))
+        for pad in (1, 2, 3, 5, 6, 7, 255):
+            out += ['build - bye %d 1 7 72' % pad, 'build - bye %d 0 616263' % pad, 'build - bye %d 2 7 8 -' % pad,
+                    'build - app %d 1 0 6e - ' % pad, 'build - sdes %d 1 1 1 1 - 6162' % pad, 'build - rr %d 1 0' % pad,
+                    'build - fb t %d 1 2 nack 1 5' % pad, 'build - unk %d 199 0 -' % pad,
+                    'build - compound 2 rr 0 1 0 bye %d 0 72' % pad]
         # counts that no longer fit a byte (a limit compared after a narrowing cast)
         for k in (255, 256, 257, 287, 288, 512):
             out.append('build - bye 0 %d %s -' % (k, ' '.join('7' for _ in range(k))))
@@ -887,6 +900,10 @@ class C19(Prop):
             return fails
         size = impl.get('size', '')
         if not ok_str(size):
+            # third-party / unknown-builder packets must be usable wherever the crate's own are: a representable
+            # configuration (alone or embedded in a compound) is not refused
+            if err_str(size) and model.get('spec.representable') == 'true' and 'oversize' not in classes_of(model):
+                fails.append('a representable configuration with third-party / raw members was rejected with %s' % size[:100])
             return fails
         n = size_n(size)
         want = S.hexbytes(model['spec.image'])
@@ -1092,7 +1109,8 @@ class C20(Prop):
             canon = 'build e0:aa ' + member
             out.append(canon)
             for _ in range(4):
-                wrap = g.pick(['d', 'd', 'pb', 'comp'])
+                # a trailing q: the harness queries the builder (size, padding, a scratch write) after every call
+                wrap = g.pick(['d', 'd', 'pb', 'comp']) + g.pick(['', 'q'])
                 hl = self._hist(g, init, scal, adds, wrap)
                 self.canon[hl] = (canon, wrap)
                 out.append(hl)
@@ -1117,7 +1135,7 @@ class C20(Prop):
             if a is None or c is None:
                 continue
             cs, hs = c.get('size', ''), a.get('size', '')
-            if wrap == 'comp' and err_str(cs):
+            if wrap.rstrip('q') == 'comp' and err_str(cs):
                 if hs != cs:
                     out.append((hl, 'one-member compound of an invalid builder returned %s, the builder returns %s' % (hs, cs)))
                 continue
